@@ -50,6 +50,7 @@ type LoadOpts struct {
 	Env       []string          // extra environment (GOOS/GOARCH for the thorough tier)
 	AllSyntax bool              // also parse dependencies (needed for SSA)
 	noInline  bool              // internal: this is the reload after helper inlining
+	noRename  bool              // internal: this is the reload after rename-back (rename.go)
 }
 
 // Load type-checks ./... of the repository. It fails closed: zero packages,
@@ -65,6 +66,11 @@ func Load(o LoadOpts) (*Prog, error) {
 		}
 	}
 	return p, nil
+}
+
+// LoadPlain loads the tree as it is: no rename-back, no inlining, no normalisation.
+func LoadPlain(repo string) (*Prog, error) {
+	return loadRaw(LoadOpts{Repo: repo, noInline: true, noRename: true})
 }
 
 // loadRaw loads and type-checks without normalising the syntax trees.
@@ -97,6 +103,26 @@ func loadRaw(o LoadOpts) (*Prog, error) {
 	if len(errs) > 0 {
 		sort.Strings(errs)
 		return nil, fmt.Errorf("load: type errors in the repository: %s", strings.Join(errs, "; "))
+	}
+	// rename-back (rename.go): a recorded unexported function under a new name gets its recorded name again
+	if !o.noRename && !o.noInline {
+		if ov, notes := RenameOverlay(p.Pkgs, fset, readThrough(cfg.Overlay)); len(ov) > 0 {
+			merged := map[string][]byte{}
+			for k, v := range cfg.Overlay {
+				merged[k] = v
+			}
+			for k, v := range ov {
+				merged[k] = v
+			}
+			o2 := o
+			o2.Overlay, o2.noRename = merged, true
+			if p2, err := loadRaw(o2); err == nil {
+				p2.Inlined = append(notes, p2.Inlined...)
+				return p2, nil
+			} else {
+				p.Inlined = append(p.Inlined, "rename-back dropped: "+err.Error())
+			}
+		}
 	}
 	// helper inlining (inline.go): calls of unexported helpers that are not in the reviewed table are
 	// replaced by their bodies in an overlay and the program is loaded again, at most three times.
